@@ -40,6 +40,7 @@ func (e *EP) UnmarshalJSON(b []byte) error {
 type SyncSpec struct {
 	N       int64 `json:"n"`
 	Leaders []EP  `json:"leaders"`
+	Acts    []Act `json:"acts,omitempty"` // arrive: what the gateway does after this sync
 }
 
 type Op struct {
@@ -173,6 +174,8 @@ func runCase(c *rig.Ctx, cs Case, m mode) int {
 		return runStopRT(c, cs, m)
 	case "overlap":
 		return runOverlap(c, cs, m)
+	case "arrive":
+		return runArrive(c, cs, m)
 	}
 	if m.record {
 		c.Fail(rig.Failure{Kind: "diff", Class: "c13.bad-case", What: "unknown case kind " + cs.Kind, Case: cs})
@@ -218,6 +221,23 @@ func shrink(c *rig.Ctx, cs Case, sev int, class string) Case {
 		cs.Endpoints = rig.ShrinkList(cs.Endpoints, func(l []EP) bool { x := cs; x.Endpoints = l; return fails(x) })
 		for i := range cs.Rounds {
 			i := i
+			cs.Rounds[i].Leaders = rig.ShrinkList(cs.Rounds[i].Leaders, func(l []EP) bool {
+				x := cs
+				x.Rounds = append([]SyncSpec{}, cs.Rounds...)
+				x.Rounds[i].Leaders = l
+				return fails(x)
+			})
+		}
+	case "arrive":
+		cs.Rounds = rig.ShrinkList(cs.Rounds, func(l []SyncSpec) bool { x := cs; x.Rounds = l; return fails(x) })
+		for i := range cs.Rounds {
+			i := i
+			cs.Rounds[i].Acts = rig.ShrinkList(cs.Rounds[i].Acts, func(l []Act) bool {
+				x := cs
+				x.Rounds = append([]SyncSpec{}, cs.Rounds...)
+				x.Rounds[i].Acts = l
+				return fails(x)
+			})
 			cs.Rounds[i].Leaders = rig.ShrinkList(cs.Rounds[i].Leaders, func(l []EP) bool {
 				x := cs
 				x.Rounds = append([]SyncSpec{}, cs.Rounds...)
@@ -314,6 +334,7 @@ func main() {
 		nGwHist := c.Budget(400, 6000)  // x 2-5 syncs x 8 names
 		nStop := c.Budget(400, 6000)
 		nOverlap := c.Budget(500, 8000)
+		nArrive := c.Budget(150, 2500) // x 2-5 syncs x ~6 requests
 		nStopRT := min(c.Budget(6, 24), 24) // real time: ~2.5 s each, run concurrently
 		var rt []Case
 		for i := 0; i < nStopRT; i++ {
@@ -328,6 +349,9 @@ func main() {
 		}
 		for i := 0; i < nOverlap && nViolations < 3; i++ {
 			try(c, genOverlap(c, i))
+		}
+		for i := 0; i < nArrive && nViolations < 3; i++ {
+			try(c, genArrive(c, i))
 		}
 		for i := 0; i < nShard && nViolations < 3; i++ {
 			try(c, genShard(c, i))
@@ -345,5 +369,6 @@ func main() {
 			runStopRTBatch(c, rt) // last, and only these run concurrently (with each other)
 		}
 		closeWorld()
+		closeFleet()
 	})
 }
